@@ -623,3 +623,58 @@ def ed7(P, C):
     C.ob("ED-7", "write_fits", "failed-close-removes-the-file", not bad, f.loc(bad[0]) if bad else f.loc(closes[0]),
          "every throw after the explicit close is preceded by remove/unlink of the path handed to fits_create_file" if not bad else
          "the throw at %s reports a failed close (the handle is gone, the guard disarmed) and leaves the incomplete file on disk under the caller's name" % f.loc(bad[0]))
+
+
+def ed8(P, C):
+    """ED-8: the writer core produces the file front to back."""
+    C.rule("ED-8", "write_fits_core writes the file front to back: the data unit of every image is written (fits_write_pix) before the next HDU is "
+           "created or the function returns, and the writer never moves between HDUs (fits_movabs_hdu / movrel / movnam / delete_hdu). A data "
+           "unit written after a later HDU exists lands in a region cfitsio has already extended and zero-filled: a crash in between leaves a "
+           "structurally complete file whose coefficients (or knots) are zeros, which loads as a different table", floor=4)
+    fs_ = [f for f in P.fns("write_fits_core") if f.cls and "splinetable" in f.cls and f.unit == "driver"]
+    if len(fs_) != 1:
+        raise core.AnalysisBroken("ED-8: write_fits_core not found")
+    f = fs_[0]
+    NAV = {"ffmahd": "fits_movabs_hdu", "ffmrhd": "fits_movrel_hdu", "ffmnhd": "fits_movnam_hdu", "ffdhdu": "fits_delete_hdu", "ffcrhd": "fits_create_hdu",
+           "ffiimg": "fits_insert_img", "ffrsim": "fits_resize_img"}
+    nav = [(i, cal["name"]) for i, cal in f.calls() if cal and cal["name"] in NAV]
+    C.ob("ED-8", "write_fits_core", "no-hdu-navigation", not nav, f.loc(nav[0][0]) if nav else f.where(),
+         "the writer only ever appends" if not nav else
+         "%s at %s: the writer goes back to (or reshapes) an HDU it left; what it writes there lands before data that are already in the file" % (NAV[nav[0][1]], f.loc(nav[0][0])))
+    creates = [i for i, cal in f.calls() if cal and cal["name"] == "ffcrim"]
+    if len(creates) < 3:
+        raise core.AnalysisBroken("ED-8: expected the three fits_create_img calls of the writer, found %d" % len(creates))
+
+    def transfer(st, e, b, j):
+        if e.get("kind") != "stmt":
+            return st
+        i = e["n"]
+        cal = f.nodes[i].get("callee")
+        if cal and cal["name"] == "ffcrim":
+            return frozenset({i})
+        if cal and cal["name"] == "ffppx":
+            return frozenset()
+        if f.k(i) == "CXXThrowExpr":
+            return frozenset()
+        return st
+    IN, OUT = core.dataflow(f, frozenset(), transfer, lambda a, b: a | b)
+    late = {}
+    for b, blk in f.blocks.items():
+        if b not in IN:
+            continue
+        st = IN[b]
+        for j, e in enumerate(blk["elems"]):
+            if e.get("kind") == "stmt":
+                cal = f.nodes[e["n"]].get("callee")
+                if cal and cal["name"] == "ffcrim":
+                    for c in st:
+                        late.setdefault(c, e["n"])
+            st = transfer(st, e, b, j)
+    for c in IN.get(f.cfg["exit"], frozenset()):
+        late.setdefault(c, -1)
+    for k, c in enumerate(sorted(creates, key=f.seq)):
+        ok = c not in late
+        C.ob("ED-8", "write_fits_core", "data-before-next-hdu:image#%d" % k, ok, f.loc(c),
+             "fits_write_pix follows on every path before the next fits_create_img / the return" if ok else
+             "the image created at %s has no data written when %s: its data unit is filled in later (or never), behind HDUs that already follow it" %
+             (f.loc(c), ("the next HDU is created at " + f.loc(late[c])) if late[c] >= 0 else "the writer returns"))
